@@ -173,7 +173,7 @@ Loops == /\ ph = "run" /\ m.mode = "run" /\ nst >= StepBound
 \* fingerprint only what is not a function of the commands consumed so far (the listing and its
 \* analysis are determined by ci and l)
 View == <<ci, l, ph, nint, hi, loose, nst, m.mode, m.pc, m.vars, m.dims, m.deft, m.fns, m.ctl, m.dptr, m.col,
-          m.tron, m.ltr, m.cont, m.contx, m.ctlx, m.stale, m.inp, m.resp, m.dgen>>
+          m.tron, m.ltr, m.cont, m.contx, m.ctlx, m.stale, m.inp, m.resp, m.dgen, m.flds, m.lcur, m.contl>>
 
 Next == Feed \/ Run \/ RunBig \/ Intr \/ Match \/ NextCase \/ Stuck \/ Discard \/ Loops
 Spec == Init /\ [][Next]_tvars
